@@ -133,12 +133,12 @@ def make_jobs(tier, seed):
         c["gates"] = [[rng.choice(pts), t] for t in builds if rng.random() < 0.7]
         return c
     gs = [c for c in all3 if "b" in c["kind"]]
-    groups.append(("n3_gated", {"mode": "random", "runs_per_config": 2 if quick else 5, "policies": pol, "signals": True},
+    groups.append(("n3_gated", {"mode": "random", "runs_per_config": 3 if quick else 6, "policies": pol + ["failures_first"], "signals": True},
                    [fin(gated(c, False), rec=True, fail=True) for c in (rng.sample(gs, 400) if quick else gs)]))
     groups.append(("n3_gated_watch", {"mode": "random", "runs_per_config": 2 if quick else 5, "max_changes": 2,
                                       "policies": pol + ["edits_first"], "max_steps": 150},
                    [fin(gated(c, True), rec=True, inherit=True) for c in (rng.sample(gs, 400) if quick else gs)]))
-    groups.append(("families_gated", {"mode": "random", "runs_per_config": 10 if quick else 100, "policies": pol, "signals": True,
+    groups.append(("families_gated", {"mode": "random", "runs_per_config": 12 if quick else 100, "policies": pol + ["failures_first"], "signals": True,
                                       "max_changes": 2},
                    [fin(gated(c, k % 2 == 1), rec=True, inherit=True, fail=(k % 4 < 2)) for k, c in enumerate(fams * 2)]))
     big = [gen_configs.random_config(rng, rng.randint(4, 7)) for _ in range(150 if quick else 2000)]
